@@ -142,7 +142,9 @@ class YPPrologCompiler:
         self.cut_if_counter = 0
     def _debug(self,*args):
         if self.context.debug_generator:
-            self.context.outf.write('# ' + " ".join([str(a) for a in args]) + '\n')
+            # a message may contain line breaks (quoted atoms): keep every line a comment
+            for line in (" ".join([str(a) for a in args]).splitlines() or ['']):
+                self.context.outf.write('# ' + line + '\n')
     def push_bound_vars(self,variables):
         self.bound_vars.append(self.bound_vars[-1] + variables)
     def pop_bound_vars(self):
